@@ -12,6 +12,7 @@
 -/
 import Genshi.Lemmas.PathFragsRef
 import Genshi.Lemmas.PathNonPos
+import Genshi.Model.PathFrags
 namespace Genshi.Path.Frags
 open Genshi Genshi.Path Genshi.Path.Ref Genshi.Path.Kmp
 
@@ -911,5 +912,39 @@ theorem chooses_simple (frags : List Frag) (hok : FragsOk frags) (h2 : 2 ≤ (no
   have ho : strategyOrder = [.single, .simple, .generic] := by decide
   have h1 : singleSupports (normPath frags) = false := by simp [singleSupports]; omega
   simp [chooseStrategy, ho, List.find?, Strategy.supports, h1, simpleSupports_normPath frags hok]
+
+/-! ## The driver-side computations are the notions used above -/
+
+theorem fragPathM_eq (ax : Axis) (ts : List NodeTest) : FragsM.fragPathM ax ts = fragPath ax ts := by
+  cases ts <;> rfl
+
+theorem tailPathM_eq : ∀ fs : List Frag, FragsM.tailPathM fs = tailPath fs
+  | [] => rfl
+  | f :: fs => by simp only [FragsM.tailPathM, tailPath, fragSteps, fragPathM_eq, tailPathM_eq fs]
+
+theorem normPathM_eq (frags : List Frag) : FragsM.normPathM frags = normPath frags := by
+  cases frags with
+  | nil => rfl
+  | cons f0 fs =>
+    simp only [FragsM.normPathM, normPath, headPath, fragPathM_eq, tailPathM_eq]
+    rfl
+
+theorem simpleTM_eq : FragsM.simpleTM = simpleT := by
+  funext t; cases t <;> rfl
+
+theorem fragsOkM_eq (frags : List Frag) : FragsM.fragsOkM frags = fragsOkB frags := by
+  simp only [FragsM.fragsOkM, fragsOkB, simpleTM_eq]
+  cases frags <;> rfl
+
+/-- a path the driver reports as in scope (`C17 inscope` answers `(T T)`) satisfies the
+    hypotheses of the fragment theorems -/
+theorem inScope_sound (p : LocPath) (h : FragsM.inScope p = some (true, true)) :
+    ∃ frags, fragments p = some frags ∧ FragsOk frags ∧ normPath frags = p := by
+  unfold FragsM.inScope at h
+  cases hf : fragments p with
+  | none => simp [hf] at h
+  | some frags =>
+    simp only [hf, Option.some.injEq, Prod.mk.injEq, decide_eq_true_eq] at h
+    exact ⟨frags, rfl, fragsOk_of_B frags (by rw [← fragsOkM_eq]; exact h.1), by rw [← normPathM_eq]; exact h.2⟩
 
 end Genshi.Path.Frags
